@@ -20,7 +20,9 @@ def main():
             continue
         mods = getattr(mod, "MODS", None) or ["EmbitModel.Props." + pid]
         for m in mods:
-            lock[m] = core.theorem_statements(m)
+            lock[m] = core.audit(m)["statements"]
+            if len(lock[m]) != len(core.theorem_names(m)):
+                print("WARNING: %s: %d statements for %d theorems" % (m, len(lock[m]), len(core.theorem_names(m))))
     json.dump(lock, open(core.LOCK, "w"), indent=1, sort_keys=True)
     print("locked", sum(len(v) for v in lock.values()), "theorems in", len(lock), "modules")
 
